@@ -206,6 +206,8 @@ class Ruler(Generic[RuleFuncTv]):
         if isinstance(names, str):
             names = [names]
         result: list[str] = []
+        # invalidate first: the loop below may raise after changing some rules
+        self.__cache__ = None
         for name in names:
             idx = self.__find__(name)
             if (idx < 0) and ignoreInvalid:
@@ -214,7 +216,6 @@ class Ruler(Generic[RuleFuncTv]):
                 raise KeyError(f"Rules manager: invalid rule name {name}")
             self.__rules__[idx].enabled = True
             result.append(name)
-        self.__cache__ = None
         return result
 
     def enableOnly(
@@ -246,6 +247,8 @@ class Ruler(Generic[RuleFuncTv]):
         if isinstance(names, str):
             names = [names]
         result = []
+        # invalidate first: the loop below may raise after changing some rules
+        self.__cache__ = None
         for name in names:
             idx = self.__find__(name)
             if (idx < 0) and ignoreInvalid:
@@ -254,7 +257,6 @@ class Ruler(Generic[RuleFuncTv]):
                 raise KeyError(f"Rules manager: invalid rule name {name}")
             self.__rules__[idx].enabled = False
             result.append(name)
-        self.__cache__ = None
         return result
 
     def getRules(self, chainName: str = "") -> list[RuleFuncTv]:
